@@ -2,6 +2,7 @@ package harness
 
 import (
 	"context"
+	"crypto/tls"
 	"errors"
 	"fmt"
 	"log/slog"
@@ -75,6 +76,7 @@ type retained struct {
 	cp     []byte
 	params []wire.Parameter // the slice handed to the statement function, retained as such
 	pi     int
+	m      wire.Parameters // a parameter map retained as the object that was handed out
 }
 
 // connState is the harness-side state of one connection (only touched by that
@@ -121,6 +123,20 @@ func (c *connState) retainParams(params []wire.Parameter) {
 	}
 }
 
+// retainMap keeps the client-parameter map exactly as a callback received it
+// (a holder may keep the map, not only the strings in it).
+func (c *connState) retainMap(name string, m wire.Parameters) {
+	if !c.rt.C.Retain() || m == nil {
+		return
+	}
+	for _, r := range c.retainedVals {
+		if r.m != nil && r.name == name {
+			return
+		}
+	}
+	c.retainedVals = append(c.retainedVals, retained{name: name, m: m, cp: []byte(sortedParams(m))})
+}
+
 func (c *connState) checkRetained(where string) {
 	if len(c.retainedVals) == 0 {
 		return
@@ -129,6 +145,9 @@ func (c *connState) checkRetained(where string) {
 		cur := r.s
 		if r.b != nil {
 			cur = string(r.b)
+		}
+		if r.m != nil {
+			cur = sortedParams(r.m)
 		}
 		if r.params != nil {
 			cur = string(r.params[r.pi].Value())
@@ -270,6 +289,7 @@ func (rt *Runtime) validator(ctx context.Context, database, username, password s
 		}
 	}
 	c.rec("validator", fmt.Sprintf("db=%q user=%q pw=%q -> %s", database, username, password, out))
+	c.retainMap("client parameters as the auth strategy received them", wire.ClientParameters(ctx))
 	c.retain("password", password)
 	c.retain("auth-user", username)
 	c.retain("auth-db", database)
@@ -306,6 +326,7 @@ func (rt *Runtime) buildServer() (*wire.Server, error) {
 		opts = append(opts, wire.SessionAuthStrategy(func(ctx context.Context, w *buffer.Writer, r *buffer.Reader) (context.Context, error) {
 			c := rt.connOf(ctx)
 			c.reader = r
+			c.retainMap("client parameters as the auth strategy received them", wire.ClientParameters(ctx))
 			c.rec("auth-custom", "passthrough")
 			w.Start(types.ServerAuth)
 			w.AddInt32(0)
@@ -331,6 +352,12 @@ func (rt *Runtime) buildServer() (*wire.Server, error) {
 		tc, err := serverTLSConfig(cfg.TLS)
 		if err != nil {
 			return nil, err
+		}
+		switch cfg.TLSClientAuth {
+		case "request":
+			tc.ClientAuth = tls.RequestClientCert
+		case "require-any":
+			tc.ClientAuth = tls.RequireAnyClientCert
 		}
 		switch cfg.TLSVia {
 		case "field":
